@@ -4,7 +4,7 @@ import os, sys, json, time
 import vlib, corr, gen
 from vlib import proof_status, corr_run, iter_real, case_script, finish, proof_violation, corr_violations
 
-QUICK_SUITES = ['basic', 'chain', 'env', 'fault', 'rand', 'chunk', 'pair']
+QUICK_SUITES = ['basic', 'chain', 'env', 'fault', 'rand', 'chunk', 'pair', 'tri']
 THOROUGH_SUITES = QUICK_SUITES + ['pairs', 'faultdense']
 
 def suites_for(tier):
@@ -421,8 +421,10 @@ def check_C08(tier, seed, t0):
         v['clause'] = 'correspondence-after-sleep-wake-up'
         ev.append(v)
     n_sw = sum(t.get('ops', 0) for t in sw['tasks'])
-    return wire_check('C08', tier, seed, t0, STD_ASSUME + ["sandwich suite: new; A; sleep; wake_up; B for every ordered pair of macro steps, compared with the model on every call"],
-                      extra_viol=ev, extra_cov=dict(sandwich_ops_compared=n_sw))
+    bv, bn = big_property_check('C08', seed, tier)
+    return wire_check('C08', tier, seed, t0, STD_ASSUME + ["sandwich suite: new; A; sleep; wake_up; B for every ordered pair of macro steps, compared with the model on every call",
+                                                          "12.48in driver (sleep = hibernate, wake-up = reset + init): deep-sleep command + check code to all four controllers last, on its real traces; hibernate / reset / init compared with Big/Model.v (which controller receives which command and parameters), also after failed calls"],
+                      extra_viol=ev + bv, extra_cov=dict(sandwich_ops_compared=n_sw, big_hibernates_judged=bn))
 def check_C09(tier, seed, t0):
     bv, n = big_property_check('C09', seed, tier)
     return wire_check('C09', tier, seed, t0, STD_ASSUME + ["12.48in driver: per-controller reset / init / power tracking on its real traces + correspondence with Big/Model.v on the power projection (theorems: C15)"],
@@ -1251,11 +1253,37 @@ def big_recovery_oracle(script_text, real_text, hexe):
                 break
     return viol, n
 
+def big_sleep_oracle(script_text, real_text):
+    """C08 on the REAL traces of the 12.48in driver: hibernate() ends with the deep-sleep command and its check code sent
+    to all four controllers, and nothing follows it in the call."""
+    viol, n = [], 0
+    R = corr.parse_out(real_text)
+    for cid, ops in R.items():
+        cidk = cid.split(' ')[0]
+        for (i, name, lines, res) in ops:
+            if res is not None and (res.startswith('PANIC') or res.startswith('ERR')):
+                break
+            if name != 'hibernate' or res is None or not res.startswith('OK'):
+                continue
+            n += 1
+            runs = big_cmd_runs(lines)
+            clause = None
+            if not runs or runs[-1][1] != 0x07:
+                clause = 'deep-sleep-not-last'
+            elif set(runs[-1][0]) != set(BIG_CHIPS):
+                clause = 'deep-sleep-not-sent-to-all-controllers'
+            elif runs[-1][2] != [0xA5]:
+                clause = 'deep-sleep-check-code'
+            if clause:
+                viol.append(dict(panel='epd12in48b_v2', site=name, clause=clause, detail="%s call #%d hibernate: %s" % (cidk, i, clause),
+                                 replay=dict(kind='trace', panel='epd12in48b_v2', feat='v3', op_index=i, script=case_script_text(script_text, cidk))))
+    return viol, n
+
 def big_property_check(prop, seed, tier):
     """correspondence of the 12.48in driver on the property's projection + the state oracle -> violations, stats"""
     import subprocess, glob as _g
     from panels import BIG
-    kind = {'C05': 'busy', 'C09': 'power', 'C10': 'frame', 'C01': 'full', 'C06': 'part', 'C04': 'fault', 'C11': 'rst', 'C02': 'full', 'C18': 'cmdlen'}[prop]
+    kind = {'C05': 'busy', 'C09': 'power', 'C10': 'frame', 'C01': 'full', 'C06': 'part', 'C04': 'fault', 'C11': 'rst', 'C02': 'full', 'C18': 'cmdlen', 'C08': 'sleep'}[prop]
     viol = []
     hexe, err = corr.build_harness('v3')
     mexe, log = corr.build_model()
@@ -1266,6 +1294,8 @@ def big_property_check(prop, seed, tier):
         suites = ['fault'] + (['faultdense'] if tier == 'thorough' else [])
     elif prop in ('C01', 'C02', 'C06', 'C11', 'C18'):
         suites = ['basic', 'chain', 'rand']
+    elif prop == 'C08':
+        suites = ['basic', 'chain', 'rand', 'fault']
     tag = 'big' + prop.lower()
     total, mism, counts, errs = corr.run_suites([BIG], 'v3', suites, seed, hexe, mexe, tag=tag)
     nor = 0
@@ -1284,6 +1314,9 @@ def big_property_check(prop, seed, tier):
             viol += vf
         elif prop == 'C18':
             vf, n = big_conformance_oracle(open(sp).read(), r.stdout)
+            viol += vf
+        elif prop == 'C08':
+            vf, n = big_sleep_oracle(open(sp).read(), r.stdout)
             viol += vf
         elif prop in ('C01', 'C02', 'C06'):
             vall, n = big_oracle(open(sp).read(), r.stdout)
@@ -1307,6 +1340,10 @@ def big_property_check(prop, seed, tier):
                 differs = True      # a call leaves the partial / window / resolution state differently: decides where a later full frame lands
         elif kind == 'fault':
             differs = m.opname not in flagged and (m.rres != m.mres or big_c15_project(m.real) != big_c15_project(m.model))
+        elif kind == 'sleep':
+            # sleep = hibernate, wake-up = reset + init: which controller receives which command with which parameters
+            differs = m.opname in ('hibernate', 'reset', 'init') and m.opname not in flagged and \
+                      (big_cmdlen_project(m.real) != big_cmdlen_project(m.model) or big_rst_project(m.real) != big_rst_project(m.model))
         elif kind == 'cmdlen':
             differs = m.opname not in flagged and big_cmdlen_project(m.real) != big_cmdlen_project(m.model)
         elif kind == 'rst':
